@@ -1268,8 +1268,15 @@ def create_href(href: str, base_href: Optional[str] = None) -> ET.Element:
     if "//" in parsed_url.path:
         logging.warning("invalidly formatted href: %s", href)
     et = ET.Element("{DAV:}href")
-    if base_href is not None:
-        href = urllib.parse.urljoin(ensure_trailing_slash(base_href), href)
+    if base_href is not None and not parsed_url.scheme:
+        # Both are unquoted paths: resolve them in quoted form, so that a '?'
+        # or '#' in the name of a collection is not taken for a URL delimiter.
+        href = urllib.parse.unquote(
+            urllib.parse.urljoin(
+                urllib.parse.quote(ensure_trailing_slash(base_href)),
+                urllib.parse.quote(href),
+            )
+        )
     et.text = urllib.parse.quote(href)
     return et
 
